@@ -9,17 +9,17 @@ hooks = [l.split()[0] for l in HOOK_COMMITS if 'verif hooks' in l]
 CLAIMED = {
  "C01": dict(
    text="Deductive proof (all inputs, all alias partitions) that the Go bodies of add/sub/neg/double/halve/select/reduce/Montgomery mul/square/fromMont/butterfly and the predicates of all 23 field packages meet integer-mod-q contracts with canonical results; VCs generated from go/ssa of the current tree, discharged by z3/cvc5.",
-   note="Trusted: go/ssa front end, gcv VC generator, SMT solvers, math/bits axioms, pinned moduli. Assembly bodies under default tags are assumed contracts (listed in evidence). Inverse/Exp/Sqrt/Legendre/BatchInvert/vector ops not yet under contract (listed under not_covered).",
+   note="Trusted: go/ssa front end, gcv VC generator, SMT solvers, math/bits axioms, pinned moduli. Assembly bodies under default tags are assumed contracts (listed in evidence). Div is proved equal to x*inv(y) with Inverse interpreted; Inverse/Exp/Sqrt/Legendre/BatchInvert/vector ops not yet under contract (listed under not_covered).",
    technique="contract-based deductive verification: weakest-precondition style symbolic execution over go/ssa with //@ contracts, cut points with ghost quotients, SMT (z3 5.1, z3 4.8.12, cvc5 1.0)",
    design="§5 C01"),
  "C02": dict(
-   text="Deductive proof at the ring layer that every branch of the Jacobian and extended-Jacobian point operations (AddAssign, SubAssign, AddMixed, DoubleAssign, Double, DoubleMixed, Neg, Set, FromAffine, FromJacobian, Equal, IsOnCurve, g1JacExtended add/double/addMixed/subMixed/doubleMixed/doubleNegMixed, unsafeFromJacExtended) of G1 and G2 of every curve returns a representative of the point prescribed by the textbook chord-and-tangent rules, for every projective representative of the operands (inputs parametrised by affine point and scaling, so that each clause is a polynomial identity), including the identity, equal-point and opposite-point branches.",
-   note="Trusted: ring-layer interpretation of coordinate-field methods; Z-lifting; textbook rules computed by the tool; field facts (integral domain, 2 != 0) that turn the exact scaling clauses into finiteness. Not under contract: affine Add/Sub/Double wrappers, IsInSubGroup, batch conversions, twisted-Edwards companions, stark-curve addition formulas.",
+   text="Deductive proof at the ring layer that every branch of the Jacobian and extended-Jacobian point operations (AddAssign, SubAssign, AddMixed, DoubleAssign, Double, DoubleMixed, Neg, Set, FromAffine, FromJacobian, Equal, IsOnCurve, g1JacExtended add/double/addMixed/subMixed/doubleMixed/doubleNegMixed, unsafeFromJacExtended) of G1 and G2 of every curve, and every affine / projective / extended operation of the 8 twisted-Edwards companion curves (Add, MixedAdd, Double, MixedDouble, Neg, Set, FromAffine, FromProj, FromExtended, IsOnCurve), returns a representative of the point prescribed by the textbook chord-and-tangent rules, for every projective representative of the operands (inputs parametrised by affine point and scaling, so that each clause is a polynomial identity), including the identity, equal-point and opposite-point branches; twisted-Edwards clauses are against the textbook law ((x1y2+y1x2)/(1+k), (y1y2-a x1x2)/(1-k)), and the dedicated doublings / d-free mixed addition are proved for operands on the curve by ideal-membership certificates (eqmod).",
+   note="Trusted: ring-layer interpretation of coordinate-field methods; Z-lifting; textbook rules computed by the tool; field facts (integral domain, 2 != 0) that turn the exact scaling clauses into finiteness. Not under contract: short-Weierstrass affine Add/Sub/Double wrappers, IsInSubGroup, batch conversions, stark-curve addition formulas, twisted-Edwards Equal/IsZero/scalar multiplication. Two defects found and repaired (stark-curve mixed doubling, twisted-Edwards MixedDouble on a non-normalised point).",
    technique="contract-based deductive verification at an abstract-ring layer: symbolic execution of the formulas to polynomials, normal-form/SMT proof of the representation identities per branch",
    design="§5 C02"),
  "C06": dict(
-   text="Deductive proof at the ring layer: for the towers of bn254, bls12-377, bls12-381, bls24-315 and bls24-317, Add/Sub/Double/Neg/Conjugate/Mul/Square/MulByNonResidue/MulByElement/MulByE2 of every level and the sparse products (MulBy01, MulBy1, MulBy12, MulBy034, MulBy34, Mul034By034, Mul34By34, MulBy01234, MulBy014, Mul014By014, MulBy01245, ...) equal the schoolbook product in R[X]/(X^k - nr) computed by the tool from the documented defining polynomials; identities are proved over the integers (Z-lifting) by z3/cvc5 for every alias partition, including operands pointing into the receiver where the contract says so.",
-   note="Trusted: ring-layer interpretation of lower-layer methods by their own contracts; Z-lifting; documented tower polynomials. Not under contract: Inverse/Div/Sqrt/Exp/Frobenius/cyclotomic squarings/torus compression, bw6 towers, small-field extensions; amd64 E2 assembly kernels are assumed contracts.",
+   text="Deductive proof at the ring layer: for the towers of bn254, bls12-377, bls12-381, bls24-315 and bls24-317, Add/Sub/Double/Neg/Conjugate/Mul/Square/Inverse/MulByNonResidue/MulByElement/MulByE2 of every level and the sparse products (MulBy01, MulBy1, MulBy12, MulBy034, MulBy34, Mul034By034, Mul34By34, MulBy01234, MulBy014, Mul014By014, MulBy01245, ...) equal the schoolbook product in R[X]/(X^k - nr) computed by the tool from the documented defining polynomials; identities are proved over the integers (Z-lifting) by z3/cvc5 for every alias partition, including operands pointing into the receiver where the contract says so.",
+   note="Trusted: ring-layer interpretation of lower-layer methods by their own contracts; Z-lifting; documented tower polynomials. Inverse is proved in the form x*z == N(x)*inv(N(x)) (norm one level down). Not under contract: Div/Sqrt/Exp/BatchInvert/Frobenius/cyclotomic squarings/torus compression, bw6 towers, small-field extensions; amd64 E2 assembly kernels are assumed contracts.",
    technique="contract-based deductive verification at an abstract-ring layer (go/ssa symbolic execution yields polynomials; SMT proves the polynomial identities)",
    design="§5 C06"),
  "C07": dict(
@@ -32,6 +32,11 @@ CLAIMED = {
    note="Trusted: as C01 plus encoding/binary axioms and the definition of reg (existence from gcd(R,q)=1, q odd checked). Not under contract: SetBytes/SetBigInt/BigInt/Text/SetString/JSON (math/big, strconv) and the vector readers/writers.",
    technique="contract-based deductive verification (go/ssa symbolic execution, //@ contracts, verif-tagged lemma functions, SMT)",
    design="§5 C08"),
+ "C20": dict(
+   text="Deductive proof at the ring layer for the dense-polynomial packages of 8 fields and the IOP polynomial objects of 7 fields: Polynomial.Eval equals Horner's value of sum p[j] X^j (loop invariant against a recursive specification); Add/Sub/Scale/ScaleInPlace/AddConstantInPlace/SubConstantInPlace/Set/Clone/Equal/SetZero, MultiLin.Fold/Add/Sum/Clone and EvalEq act coefficient-wise as defined, with the prescribed result length, for every identical-slice aliasing of the operands; iop Polynomial.Evaluate hands exactly base*w^shift (w = fft.Generator(Size), any integer shift, base = x or x/coset) to the evaluation of the shared coefficient vector; Clone/ShallowClone/NewPolynomial/Shift preserve shift, size, coset, form and coefficients; GetCoeff reads entry (i + (n/size)*shift) mod n in the Regular layout; canonical/regular evaluation is Horner.",
+   note="Trusted: ring layer over fr.Element; math/big.NewInt and Element.Exp interpreted (uninterpreted power); fft.Generator opaque (captured). Preconditions: non-empty vectors for Eval/Sum; GetCoeff for 0 <= shift <= 2^20. Not under contract: Lagrange-basis and bit-reversed evaluation, FFT-based conversions, ratios, quotient, expressions, serialisation, InterpolateOnRange, MultiLin.Evaluate/Eq. Two defects found and repaired (Evaluate ignored shifts outside 0..5; Add panicked on an empty destination).",
+   technique="contract-based deductive verification: loop invariants with quantifiers and recursive SMT specification functions over symbolic coefficient arrays, identical-slice alias partitions, ghost capture of opaque callee arguments at call-site cut points",
+   design="§10.4 C20"),
  "C14": dict(
    text="Deductive proof for MiMC of all 8 curves (encrypt = documented number of rounds of x -> (x+k+c_i)^d then +k, by loop invariant against a recursive specification; checksum = Miyaguchi-Preneel fold; Write never slices its input beyond len(p), accepts only whole blocks or one short left-padded block and reports consumed bytes; SetState and Sum flush pending blocks) and for the Poseidon2 external/internal linear layers (published matrices, widths 2 and 3) and S-box of the 8 curve-field instances.",
    note="Trusted: ring layer over fr.Element; documented MiMC exponents/round counts and Poseidon2 matrices; the round-constant tables are fixed arrays whose derivation is not under contract; interface fr.ByteOrder assumed (its implementations are proved under C08). Not under contract: Poseidon2 round schedule and wrappers, small-field Poseidon2, ring-SIS, Merkle-Damgard wrapper, registry.",
@@ -69,7 +74,6 @@ NA = {
  "C12": "signature verifiers and byte decoders use math/big throughout; the big.Int model was not built, so no contract is claimed",
  "C13": "ExpandMsgXmd totality and the map-to-curve identities are within reach (loop invariants with SHA-256 uninterpreted; ring-layer identities) but were not brought under contract in the time available",
  "C18": "purity/repeatability needs inferred frames for every exported entry point and a treatment of goroutines; only the modifies clauses of the functions under contract are checked (reported under the respective properties), which does not carry the property",
- "C20": "polynomial form dispatch depends on the FFT contract (C10, not applicable); Evaluate / GetCoeff index arithmetic was not brought under contract in the time available (defects seen by reading are listed in DESIGN.md 10.5)",
 }
 
 def main():
